@@ -103,10 +103,10 @@ func buildC11(tier string) *core.Plan {
 		n, ns2 = 7, 4
 	}
 	a := gen.Alphabet{Scalars: []any{1, true, false}, Keys: []string{"a", "b", "$output"}, MaxList: 3, MaxMap: 3}
-	trees := gen.Trees(a, n)
-	single := core.Space{Name: "single-documents", N: int64(len(trees)),
-		Desc: func(i int64) any { return trees[i] },
-		Run:  func(c *core.Ctx, i int64) { c11Check(c, "refSelect/refHide", []any{trees[i]}) }}
+	trees := gen.NewSet(a, n)
+	single := core.Space{Name: "single-documents", N: trees.Len(),
+		Desc: func(i int64) any { return trees.At(i) },
+		Run:  func(c *core.Ctx, i int64) { c11Check(c, "refSelect/refHide", []any{trees.At(i)}) }}
 	small := gen.Trees(a, ns2)
 	ns := int64(len(small))
 	streams := core.Space{Name: "two-document-streams", N: ns * ns,
@@ -147,6 +147,6 @@ func buildC11(tier string) *core.Plan {
 		Spaces: []core.Space{single, streams, layered},
 		Rule:   "every tree with <= N nodes over keys {a, b, $output} and scalars {1, true, false} (so every map/list carries no marker, a true marker, a false marker, a non-bool marker or a marker with extra keys), every 2-document stream of trees with <= 3 (thorough 4) nodes, and every lower/upper layer pair of trees with <= 3 (thorough 4) nodes (markers contributed, overridden or removed by the upper layer); non-trivial = the tree contains a $output key",
 		Assumptions: []string{"reference model ref.Outputs (select, hide, final) is the oracle; the relative order of a selected subtree and a selected descendant is compared as a multiset; a list carrying both markers is not judged"},
-		Bounds:      map[string]any{"nodes": n, "trees": len(trees)},
+		Bounds:      map[string]any{"nodes": n, "trees": trees.Len()},
 	}
 }
